@@ -20,15 +20,55 @@ pub assume_specification [u64::rotate_right] (x: u64, n: u32) -> (r: u64) ensure
 pub assume_specification [u32::rotate_left] (x: u32, n: u32) -> (r: u32) ensures r == spec_rotl32(x, n);
 pub assume_specification [u32::rotate_right] (x: u32, n: u32) -> (r: u32) ensures r == spec_rotr32(x, n);
 
+// T3: `<[T; N] as AsMut<[T]>>::as_mut` is the array viewed as a slice
+pub assume_specification<T, const N: usize> [<[T; N] as core::convert::AsMut<[T]>>::as_mut] (a: &mut [T; N]) -> (r: &mut [T])
+    ensures r@ == old(a)@, final(r)@ == final(a)@;
+
 // D4: panics are calls to a function that can never be called
 #[verifier::external_body]
 pub fn vpanic(msg: &str) -> !
     requires false
 { panic!() }
 
-// D6: little-endian byte conversions with vstd's byte specs (the std methods cannot be named in assume_specification)
-pub open spec fn le64(x: u64) -> Seq<u8> { vstd::bytes::spec_u64_to_le_bytes(x) }
-pub open spec fn le32(x: u32) -> Seq<u8> { vstd::bytes::spec_u32_to_le_bytes(x) }
+// D6: little-endian byte conversions.  The meaning of "little-endian" is spelled out here as open spec functions
+// (vstd's spec_uN_to/from_le_bytes are closed); the exec shims below are assumed to implement them (T4) and are
+// cross-checked against the real std methods on all inputs by Kani harnesses (kani/std_shims).
+pub open spec fn le32(x: u32) -> Seq<u8> {
+    seq![(x & 0xff) as u8, ((x >> 8u32) & 0xff) as u8, ((x >> 16u32) & 0xff) as u8, ((x >> 24u32) & 0xff) as u8]
+}
+pub open spec fn le64(x: u64) -> Seq<u8> {
+    seq![(x & 0xff) as u8, ((x >> 8u64) & 0xff) as u8, ((x >> 16u64) & 0xff) as u8, ((x >> 24u64) & 0xff) as u8,
+         ((x >> 32u64) & 0xff) as u8, ((x >> 40u64) & 0xff) as u8, ((x >> 48u64) & 0xff) as u8, ((x >> 56u64) & 0xff) as u8]
+}
+pub open spec fn from_le32(b: Seq<u8>) -> u32 {
+    (b[0] as u32) | ((b[1] as u32) << 8u32) | ((b[2] as u32) << 16u32) | ((b[3] as u32) << 24u32)
+}
+pub open spec fn from_le64(b: Seq<u8>) -> u64 {
+    (b[0] as u64) | ((b[1] as u64) << 8u64) | ((b[2] as u64) << 16u64) | ((b[3] as u64) << 24u64)
+    | ((b[4] as u64) << 32u64) | ((b[5] as u64) << 40u64) | ((b[6] as u64) << 48u64) | ((b[7] as u64) << 56u64)
+}
+pub proof fn lemma_le32_roundtrip(x: u32) ensures from_le32(le32(x)) == x, le32(x).len() == 4
+{
+    assert(((((x & 0xff) as u8) as u32) | ((((x >> 8u32) & 0xff) as u8) as u32) << 8u32 | ((((x >> 16u32) & 0xff) as u8) as u32) << 16u32 | ((((x >> 24u32) & 0xff) as u8) as u32) << 24u32) == x) by (bit_vector);
+}
+pub proof fn lemma_le64_roundtrip(x: u64) ensures from_le64(le64(x)) == x, le64(x).len() == 8
+{
+    assert(((((x & 0xff) as u8) as u64) | ((((x >> 8u64) & 0xff) as u8) as u64) << 8u64 | ((((x >> 16u64) & 0xff) as u8) as u64) << 16u64 | ((((x >> 24u64) & 0xff) as u8) as u64) << 24u64
+      | ((((x >> 32u64) & 0xff) as u8) as u64) << 32u64 | ((((x >> 40u64) & 0xff) as u8) as u64) << 40u64 | ((((x >> 48u64) & 0xff) as u8) as u64) << 48u64 | ((((x >> 56u64) & 0xff) as u8) as u64) << 56u64) == x) by (bit_vector);
+}
+pub proof fn lemma_from_le32_zero(b: Seq<u8>) requires b.len() == 4
+    ensures (from_le32(b) == 0) == (b[0] == 0 && b[1] == 0 && b[2] == 0 && b[3] == 0)
+{
+    let (a0, a1, a2, a3) = (b[0], b[1], b[2], b[3]);
+    assert((((a0 as u32) | ((a1 as u32) << 8u32) | ((a2 as u32) << 16u32) | ((a3 as u32) << 24u32)) == 0) == (a0 == 0 && a1 == 0 && a2 == 0 && a3 == 0)) by (bit_vector);
+}
+pub proof fn lemma_from_le64_zero(b: Seq<u8>) requires b.len() == 8
+    ensures (from_le64(b) == 0) == (b[0] == 0 && b[1] == 0 && b[2] == 0 && b[3] == 0 && b[4] == 0 && b[5] == 0 && b[6] == 0 && b[7] == 0)
+{
+    let (a0, a1, a2, a3, a4, a5, a6, a7) = (b[0], b[1], b[2], b[3], b[4], b[5], b[6], b[7]);
+    assert((((a0 as u64) | ((a1 as u64) << 8u64) | ((a2 as u64) << 16u64) | ((a3 as u64) << 24u64) | ((a4 as u64) << 32u64) | ((a5 as u64) << 40u64) | ((a6 as u64) << 48u64) | ((a7 as u64) << 56u64)) == 0)
+        == (a0 == 0 && a1 == 0 && a2 == 0 && a3 == 0 && a4 == 0 && a5 == 0 && a6 == 0 && a7 == 0)) by (bit_vector);
+}
 pub trait ToLe8: Sized { spec fn le(self) -> Seq<u8>; fn to_le_bytes_v(self) -> (r: [u8; 8]) ensures r@ == self.le(); }
 pub trait ToLe4: Sized { spec fn le(self) -> Seq<u8>; fn to_le_bytes_v(self) -> (r: [u8; 4]) ensures r@ == self.le(); }
 impl ToLe8 for u64 { open spec fn le(self) -> Seq<u8> { le64(self) }
@@ -36,9 +76,9 @@ impl ToLe8 for u64 { open spec fn le(self) -> Seq<u8> { le64(self) }
 impl ToLe4 for u32 { open spec fn le(self) -> Seq<u8> { le32(self) }
   #[verifier::external_body] fn to_le_bytes_v(self) -> (r: [u8; 4]) { self.to_le_bytes() } }
 #[verifier::external_body]
-pub fn u64_from_le_bytes_v(b: [u8; 8]) -> (r: u64) ensures r == vstd::bytes::spec_u64_from_le_bytes(b@) { u64::from_le_bytes(b) }
+pub fn u64_from_le_bytes_v(b: [u8; 8]) -> (r: u64) ensures r == from_le64(b@) { u64::from_le_bytes(b) }
 #[verifier::external_body]
-pub fn u32_from_le_bytes_v(b: [u8; 4]) -> (r: u32) ensures r == vstd::bytes::spec_u32_from_le_bytes(b@) { u32::from_le_bytes(b) }
+pub fn u32_from_le_bytes_v(b: [u8; 4]) -> (r: u32) ensures r == from_le32(b@) { u32::from_le_bytes(b) }
 
 // D11: `seed.iter().all(|&x| x == 0)` (closure patterns are outside the dialect); cross-checked by Kani on the real code (C08)
 pub open spec fn all_zero(b: Seq<u8>) -> bool { forall |i: int| 0 <= i < b.len() ==> b[i] == 0 }
